@@ -11,4 +11,12 @@ def quarter : Rat := 1 / 4
 def deep : Rat := (3512807709348987 : Rat) / 2251799813685248
 /-- hmax factor without a time axis: 1.86 -/
 def hmaxK : Rat := (8376695306909123 : Rat) / 4503599627370496
+/-- gamma: `alpha_pm = 0.3125·hs²·fp⁴`, `E_pm(fp) = alpha_pm·fp⁻⁵·0.2865048` -/
+def gammaA : Rat := 5 / 16
+def gammaB : Rat := ((2580605821039717 : Rat) / 9007199254740992)
+/-- polynomial approximation of gamma, lowest order first (`p[::-1]`) -/
+def gammaPoly : List Rat := [((4674721281115827 : Rat) / 36028797018963968), ((5859173927865775 : Rat) / 18014398509481984), ((1443119188183783 : Rat) / 2251799813685248), -((2439742592182793 : Rat) / 18014398509481984), ((5452958428820197 : Rat) / 144115188075855872)]
+/-- alpha tail window `(1.35·fp, 2·fp)` -/
+def alphaLo : Rat := ((3039929748475085 : Rat) / 2251799813685248)
+def alphaHi : Rat := 2
 end WS.Consts
